@@ -75,6 +75,7 @@ type Canon struct {
 	// RangeBind: range key object -> label
 	bind map[types.Object]string
 	rangeDepth int
+	nTypeSwitch int
 }
 
 func NewCanon(fset *token.FileSet, info *types.Info, opt Options) *Canon {
@@ -598,6 +599,11 @@ func (c *Canon) stmt(st ast.Stmt) []*Node {
 			tag = c.Expr(a.X)
 		}
 		n := &Node{Kind: "switch", Head: "typeswitch " + tag, Pos: x.Pos()}
+		c.nTypeSwitch++
+		tsName := fmt.Sprintf("%%ts%d", c.nTypeSwitch)
+		if c.nTypeSwitch == 1 {
+			tsName = "%ts"
+		}
 		for _, cl := range x.Body.List {
 			cc := cl.(*ast.CaseClause)
 			var es []string
@@ -610,7 +616,7 @@ func (c *Canon) stmt(st ast.Stmt) []*Node {
 			}
 			// the implicit per-clause variable
 			if o := c.Info.Implicits[cc]; o != nil {
-				c.names[o] = "%ts"
+				c.names[o] = tsName
 			}
 			s := c.saveSubst()
 			n.Kids = append(n.Kids, &Node{Kind: "case", Head: h, Kids: c.block(cc.Body), Pos: cc.Pos()})
